@@ -20,7 +20,7 @@ CLAUSE_PROP = {
     "V_noraise": "C06", "V_accept": "C04", "V_dropwhole": "C04", "V_counted": "C04", "V_deliver": "C04", "V_once": "C04",
 }
 # clauses that more than one property relies on
-ALSO = {"B_known": ("C04", "C05", "C07"), "V_exact": ("C04",), "E_left": ("C05", "C07"), "K_notstuck": ("C09", "C07", "C06"), "S_fit": ("C09", "C07", "C06"), "V_accept": ("C08",), "V_deliver": ("C06",), "S_ok": ("C09",), "B_seq": ("C03",)}
+ALSO = {"V_acked": ("C05", "C07"), "B_ack": ("C05", "C07"), "B_known": ("C04", "C05", "C07"), "V_exact": ("C04",), "E_left": ("C05", "C07"), "K_notstuck": ("C09", "C07", "C06"), "S_fit": ("C09", "C07", "C06"), "V_accept": ("C08",), "V_deliver": ("C06",), "S_ok": ("C09",), "B_seq": ("C03",)}
 
 
 def props_of(clause):
